@@ -546,6 +546,20 @@ fn main_loop(args: Vec<String>) {
                 }
                 "{\"ok\":true}".to_string()
             }
+            "forget" => {
+                // the caller removes a template id from the public cache maps of one protocol (template expiry)
+                if let Some(p) = parsers.get_mut(&nat(&op["p"])) {
+                    let id = nat(&op["id"]) as u16;
+                    if nat(&op["proto"]) == 10 {
+                        p.ipfix_parser.templates.remove(&id);
+                        p.ipfix_parser.options_templates.remove(&id);
+                    } else {
+                        p.v9_parser.templates.remove(&id);
+                        p.v9_parser.options_templates.remove(&id);
+                    }
+                }
+                "{\"ok\":true}".to_string()
+            }
             "parse" => {
                 // mark the op as in flight so that the parent can attribute a crash
                 writeln!(out, "{{\"i\":{},\"inflight\":true}}", ln).ok();
